@@ -329,6 +329,14 @@ func (db *SingleBucketBackend) PutObject(
 		return result, gofakes3.BucketNotFound(bucketName)
 	}
 
+	// The body is read (and its length and digest verified by the reader
+	// chain) before the destination is touched, so that a rejected or
+	// aborted upload cannot destroy the object it would have replaced:
+	bts, err := gofakes3.ReadAll(input, size)
+	if err != nil {
+		return result, err
+	}
+
 	err = gofakes3.MergeMetadata(db, bucketName, objectName, meta)
 	if err != nil {
 		return result, err
@@ -344,6 +352,12 @@ func (db *SingleBucketBackend) PutObject(
 		if err := db.fs.MkdirAll(objectDir, 0777); err != nil {
 			return result, err
 		}
+	}
+
+	// Replace rather than truncate: a reader that opened the previous object
+	// before this upload keeps reading the previous bytes.
+	if err := db.fs.Remove(objectFilePath); err != nil && !os.IsNotExist(err) {
+		return result, err
 	}
 
 	f, err := db.fs.Create(objectFilePath)
@@ -362,7 +376,7 @@ func (db *SingleBucketBackend) PutObject(
 
 	hasher := md5.New()
 	w := io.MultiWriter(f, hasher)
-	if _, err := io.Copy(w, input); err != nil {
+	if _, err := w.Write(bts); err != nil {
 		return result, err
 	}
 
